@@ -47,8 +47,11 @@ func Division(left, right value.Value) error {
 			} else if rv.IsNegativeInf || math.IsInf(float64(lv.Value)/rv.Value, -1) {
 				lv.Value = math.MinInt64
 				lv.IsNegativeInf = true
+			} else if d := int64(rv.Value); d != 0 {
+				lv.Value /= d
 			} else {
-				lv.Value /= int64(rv.Value)
+				// divisor is between -1 and 1, its integer part would divide by zero
+				lv.Value = int64(float64(lv.Value) / rv.Value)
 			}
 		default:
 			return errors.WithStack(fmt.Errorf("invalid division INTEGER type, got %s", right.Type()))
@@ -96,10 +99,21 @@ func Division(left, right value.Value) error {
 		switch right.Type() {
 		case value.IntegerType: // RTIME /= INTEGER
 			rv := value.Unwrap[*value.Integer](right)
+			if rv.Value == 0 {
+				return errors.WithStack(fmt.Errorf("division by zero"))
+			}
 			lv.Value /= time.Duration(rv.Value)
 		case value.FloatType: // RTIME /= FLOAT
 			rv := value.Unwrap[*value.Float](right)
-			lv.Value /= time.Duration(rv.Value)
+			if rv.Value == 0 {
+				return errors.WithStack(fmt.Errorf("division by zero"))
+			}
+			if d := time.Duration(rv.Value); d != 0 {
+				lv.Value /= d
+			} else {
+				// divisor is between -1 and 1, its integer part would divide by zero
+				lv.Value = time.Duration(float64(lv.Value) / rv.Value)
+			}
 		default:
 			return errors.WithStack(fmt.Errorf("invalid division RTIME type, got %s", right.Type()))
 		}
